@@ -701,6 +701,10 @@ r_buf_rpos_inc(r_buf_p r_buf, r_buf_rpos_p rpos, size_t data_size) {
 
 	if (NULL == r_buf || NULL == rpos || 0 == data_size)
 		return;
+	/* Writer lap the reader after data get: blocks table entries are
+	 * rewritten, do not walk them. Next check resync and report drop. */
+	if (0 == r_buf_rpos_check_fast(r_buf, rpos))
+		return;
 
 	/* Process iov offset. */
 	if (0 != rpos->iov_off) {
@@ -722,7 +726,7 @@ r_buf_rpos_inc(r_buf_p r_buf, r_buf_rpos_p rpos, size_t data_size) {
 		}
 		data_size -= r_buf->iov[rpos->iov_index].iov_len;
 		if (0 == r_buf_rpos_index_inc(r_buf, rpos)) {
-			debug_break();
+			debugd_break();
 			return; /* XXX this situation is BUG and must never happen. */
 		}
 	}
